@@ -177,7 +177,7 @@ fn build(rng: &mut Rng, must: usize) -> Option<Built> {
     }
     // derived types
     for _ in 0..rng.range(2, 8) {
-        match rng.below(7) {
+        match rng.below(11) {
             0 => {
                 let c = *rng.pick(&scalars);
                 let n = rng.range(2, 4) as u32;
@@ -224,6 +224,44 @@ fn build(rng: &mut Rng, must: usize) -> Option<Built> {
                 insts.push(AInst::named("ConstantComposite", Some(t), Some(id), cs.iter().map(|c| AOp::id(*c)).collect()));
                 consts.push((id, "Composite".into(), cs.iter().map(|c| format!("Token({})", cidx(&consts, *c))).collect()));
                 const_ids.push(id);
+            }
+            7 => {
+                // opaque types without operands
+                let name = *rng.pick(&["Sampler", "Event", "DeviceEvent", "ReserveId", "Queue", "PipeStorage", "NamedBarrier", "RayQueryKHR", "HitObjectNV", "AccelerationStructureKHR"]);
+                let id = decl(&mut insts, &mut types, &mut gen, name, vec![], vec![]);
+                all_types.push(id);
+            }
+            8 => {
+                let t = *rng.pick(&all_types);
+                let name = *rng.pick(&["RuntimeArray", "SampledImage"]);
+                let leaves = vec![format!("Token({})", tix(&types, t))];
+                let id = decl(&mut insts, &mut types, &mut gen, name, vec![AOp::id(t)], leaves);
+                all_types.push(id);
+            }
+            9 => {
+                let (name, kind) = *rng.pick(&[("Pipe", K::AccessQualifier), ("BufferSurfaceINTEL", K::AccessQualifier), ("UntypedPointerKHR", K::StorageClass)]);
+                let vals = d.enum_values(kind);
+                let (en, ev) = vals[rng.below(vals.len())].clone();
+                let id = decl(&mut insts, &mut types, &mut gen, name, vec![AOp::w(kind, ev)], vec![en]);
+                all_types.push(id);
+            }
+            10 => {
+                // types whose further operands are plain ids (kept as words by the structured representation)
+                let t = *rng.pick(&all_types);
+                let (name, typed, words) = *rng.pick(&[("CooperativeVectorNV", true, 1usize), ("CooperativeMatrixNV", true, 3), ("CooperativeMatrixKHR", true, 4), ("TensorLayoutNV", false, 2), ("NodePayloadArrayAMDX", false, 1)]);
+                let mut ops = vec![];
+                let mut leaves = vec![];
+                if typed {
+                    ops.push(AOp::id(t));
+                    leaves.push(format!("Token({})", tix(&types, t)));
+                }
+                for _ in 0..words {
+                    let w = gen.fresh();
+                    ops.push(AOp::id(w));
+                    leaves.push(w.to_string());
+                }
+                let id = decl(&mut insts, &mut types, &mut gen, name, ops, leaves);
+                all_types.push(id);
             }
             _ => {}
         }
